@@ -36,14 +36,6 @@ example : withCache (fun k => if k = 1 then some 10 else none) (fun k : Nat => 1
 /-! ## 2. commit-graph: staleness.  Commits are immutable (content addressed): a repository evolves by adding
 and pruning objects, never by changing one. -/
 
-/-- `ParentsProvider.get_parents` / `_collect_ancestors`: graph first, commit object otherwise -/
-def parentsVia {Oid : Type} (g : Oid → Option (List Oid)) (store : Oid → Option (List Oid)) :
-    Oid → Option (List Oid) := withCache (fun k => (g k).map some) store
-
-/-- the store only grows or shrinks; an id never changes its content -/
-def Evolves {Oid : Type} (s0 s1 : Oid → Option (List Oid)) : Prop :=
-  ∀ k v, s0 k = some v → s1 k = some v ∨ s1 k = none
-
 /-- a graph that was correct when written stays correct for every commit that still exists -/
 theorem stale_graph_sound {Oid : Type} (g s0 s1 : Oid → Option (List Oid))
     (hw : ∀ k v, g k = some v → s0 k = some v) (he : Evolves s0 s1) :
@@ -216,10 +208,6 @@ theorem bitmap_checksum_gate (packChecksum stored : Bytes) :
   simp
 
 /-! ## 6b. reachability providers: traversal vs bitmaps (F10) -/
-
-/-- diamond history: 0 ← 1 ← 2, 0 ← 3, 4 = merge(2, 3) -/
-def diamond : Nat → List Nat
-  | 1 => [0] | 2 => [1] | 3 => [0] | 4 => [2, 3] | _ => []
 
 /-- FULL statement (false for the code as it is): both providers give the same commit set. -/
 def ReachProvidersAgreeStatement : Prop :=
